@@ -61,7 +61,7 @@ def _depth(prog):
     d, created = {}, 0
     best = 0
     for s in prog:
-        if s["s"] in ("new", "select", "alias", "add_scalar", "add_arrays", "concat", "concat1", "astype", "sort", "cumsum", "diff"):
+        if s["s"] in ("new", "select", "alias", "add_scalar", "add_arrays", "concat", "concat1", "astype", "sort", "cumsum", "diff", "unique"):
             d[created] = (d.get(s.get("x"), 0) + 1) if s["s"] == "select" else 0
             best = max(best, d[created]); created += 1
     return best
@@ -104,6 +104,8 @@ def lean_prog(prog):
 
 
 def lean_request(p):
+    if any(st["s"] == "unique" for st in p["prog"]):
+        return None          # (np.unique inside programs: implementation vs reference interpreter only)
     return {"op": "Heap.run", "prog": lean_prog(p["prog"])}
 
 
